@@ -78,7 +78,7 @@ def check_recency(rep, prog):
     gk = prog.method('pgpy.pgp', 'PGPKey', '_get_key_flags')
     for primary in (True, False):
         sc = Scenario(bind={'self.is_primary': Const(primary)}, args={'user': Const(None)}, inline=noinline,
-                      axioms={'(len(self._uids) == 0)': False})
+                      axioms={'self._uids': True})
         for s in Interp(prog, sc).run(gk):
             r = render(s.ret)
             if primary:
